@@ -326,6 +326,34 @@ func c19Random(w *core.W, j int) {
 			}
 		})
 	}
+	// labels of equal length that differ only in raw octets above 0x7F (not valid UTF-8, or UTF-8
+	// letters that are case partners to Unicode): different labels, no folding applies
+	for _, pr := range [][2]string{{"\xff", "\xfe"}, {"\xe9", "\xc9"}, {"\xc3\x89", "\xc3\xa9"}, {"a\xff", "a\xfe"}, {"\xce\xa3", "\xcf\x83"}, {"\xd0\x90", "\xd0\xb0"}} {
+		for k, suffix := range []string{"raw.example.", "example.", ""} {
+			x, y := pr[0]+"."+suffix, pr[1]+"."+suffix
+			if k == 0 {
+				x, y = pr[0]+suffix, pr[1]+suffix // the differing octets share a label with "raw"
+			}
+			want := strings.Count(suffix, ".")
+			if k == 0 {
+				want--
+			}
+			w.Eval(1)
+			w.Count("raw_8bit_pairs", 1)
+			wit := map[string]any{"a": x, "b": y}
+			w.Guard("raw-8bit pair", wit, func() {
+				if got := dns.CompareDomainName(x, y); got != want {
+					w.Violation("C19/CompareDomainName/raw-8bit-pair", fmt.Sprintf("CompareDomainName(%q, %q)=%d, want %d: the first labels differ", x, y, got, want), wit)
+				}
+				if dns.IsSubDomain(x, y) || dns.IsSubDomain(y, x) {
+					w.Violation("C19/IsSubDomain/raw-8bit-pair", fmt.Sprintf("IsSubDomain holds between %q and %q", x, y), wit)
+				}
+				if got := dns.CompareDomainName("sub."+x, x); got != want+1 {
+					w.Violation("C19/CompareDomainName/raw-8bit-pair", fmt.Sprintf("CompareDomainName(%q, %q)=%d, want %d", "sub."+x, x, got, want+1), wit)
+				}
+			})
+		}
+	}
 	// the same names with some letters written escaped (\A is the letter A): still the same wire
 	// name, so the helpers count the same labels and canonical form lower-cases those letters too
 	for k, n := range names {
